@@ -704,11 +704,42 @@ pub fn exec_case<S: Sch>(case: &Case, out: &mut String, with_acc: bool) {
                 "remove_insert" => {
                     let rm = parse_list(get("rm"));
                     let ins = parse_pairs(get("ins"));
-                    e.remove_insert(
-                        rm.iter(),
-                        ins.iter().map(|(k, v)| (k.clone(), v.as_slice())),
-                        key,
-                    )
+                    // the kind of iterator the caller hands in (exact or inexact size hints, fused or
+                    // not) is the caller's business
+                    type RmIt<'x> = Box<dyn Iterator<Item = &'x Vec<u8>> + 'x>;
+                    type InsIt<'x> = Box<dyn Iterator<Item = (Vec<u8>, &'x [u8])> + 'x>;
+                    let it = get("it");
+                    let rm_it: RmIt = match it {
+                        "filter" | "unfused" => Box::new(rm.iter().filter(|_| true)),
+                        "fromfn" => {
+                            let mut i = 0usize;
+                            let r = &rm;
+                            Box::new(std::iter::from_fn(move || {
+                                i += 1;
+                                r.get(i - 1)
+                            }))
+                        }
+                        "overhint" => Box::new(Hinted { inner: rm.iter(), lo: 0, hi: Some(0) }),
+                        _ => Box::new(rm.iter()),
+                    };
+                    let pairs = ins.iter().map(|(k, v)| (k.clone(), v.as_slice()));
+                    let ins_it: InsIt = match it {
+                        "filter" => Box::new(pairs.filter(|_| true)),
+                        "flatmap" => Box::new(ins.iter().flat_map(|(k, v)| std::iter::once((k.clone(), v.as_slice())))),
+                        "fromfn" => {
+                            let mut i = 0usize;
+                            let r = &ins;
+                            Box::new(std::iter::from_fn(move || {
+                                i += 1;
+                                r.get(i - 1).map(|(k, v)| (k.clone(), v.as_slice()))
+                            }))
+                        }
+                        "chain" => Box::new(pairs.chain(std::iter::empty())),
+                        "overhint" => Box::new(Hinted { inner: pairs, lo: 0, hi: Some(0) }),
+                        "underhint" => Box::new(Hinted { inner: pairs, lo: 1000, hi: None }),
+                        _ => Box::new(pairs),
+                    };
+                    e.remove_insert(rm_it, ins_it, key)
                     .map(|(a, b)| {
                         let f = |v: Vec<Option<Bytes>>| {
                             if v.is_empty() {
@@ -754,5 +785,23 @@ pub fn exec_any(case: &Case, out: &mut String, with_acc: bool) {
         "comb" => exec_case::<SComb>(case, out, with_acc),
         "toy" => exec_case::<SToy>(case, out, with_acc),
         _ => {}
+    }
+}
+
+
+/// an iterator that reports a size hint of the harness's choosing (a hint is a hint, not a promise)
+struct Hinted<I> {
+    inner: I,
+    lo: usize,
+    hi: Option<usize>,
+}
+
+impl<I: Iterator> Iterator for Hinted<I> {
+    type Item = I::Item;
+    fn next(&mut self) -> Option<I::Item> {
+        self.inner.next()
+    }
+    fn size_hint(&self) -> (usize, Option<usize>) {
+        (self.lo, self.hi)
     }
 }
